@@ -937,7 +937,10 @@ func (t *tokenizer) readTimestamp() (string, error) {
 	if c == 'T' {
 		// yyyyT
 		w.WriteByte('T')
-		return w.String(), nil
+		if c, err = t.read(); err != nil {
+			return "", err
+		}
+		return t.readTimestampFinish(c, &w)
 	}
 	if c != '-' {
 		return "", t.invalidChar(c)
@@ -950,7 +953,10 @@ func (t *tokenizer) readTimestamp() (string, error) {
 	if c == 'T' {
 		// yyyy-mmT
 		w.WriteByte('T')
-		return w.String(), nil
+		if c, err = t.read(); err != nil {
+			return "", err
+		}
+		return t.readTimestampFinish(c, &w)
 	}
 	if c != '-' {
 		return "", t.invalidChar(c)
